@@ -22,7 +22,10 @@ def run (c obs : String) : String × String × Bool :=
       else if body.startsWith "ok |" then
         match C01.checkProgram p results ctrs body (lenient := true) with
         | .ok (sh, c, _) => go ps' os' (i + 1) (results ++ [sh]) (ctrs ++ [c])
-        | .error e => ("", s!"program {i}: success reported with wrong rows after a machine loss: {e}", false)
+        | .error e =>
+          let (pp, _) := ProgParse.parseProgram p
+          let unordered := !(eval pp results).2.ordered
+          ("", s!"program {i}: success reported with wrong rows after a machine loss{if unordered then " (the program does not fix the row order of its result)" else ""}: {e}", false)
       else if body.startsWith "scan" then
         -- the run succeeded, the scan of the result reported an error: allowed (never other rows)
         ("", "ok", true)
